@@ -7,6 +7,9 @@
 //	                                    (all line numbers move)
 //	mech -dir <worktree> -mode recv     only receivers are renamed
 //	mech -dir <worktree> -mode locals   only locals declared inside bodies are renamed (not parameters)
+//	mech -dir <worktree> -mode ifflip   every if/else with a plain else block is inverted:
+//	                                    if c {A} else {B}  =>  if !(c) {B} else {A}
+//	mech -dir <worktree> -mode vardecl  every statement "x := e" becomes "var x = e"
 //
 // The rewrite is done on the type-checked program (objects, not text), written back with
 // go/format, and must still build.
@@ -52,6 +55,57 @@ func main() {
 				continue
 			}
 			switch *mode {
+			case "ifflip", "vardecl":
+				changed := false
+				ast.Inspect(f, func(nd ast.Node) bool {
+					switch v := nd.(type) {
+					case *ast.IfStmt:
+						// if c { A } else { B }  =>  if !(c) { B } else { A }   (else must be a plain block)
+						if *mode != "ifflip" {
+							return true
+						}
+						eb, ok := v.Else.(*ast.BlockStmt)
+						if !ok {
+							return true
+						}
+						v.Cond = &ast.UnaryExpr{Op: token.NOT, X: &ast.ParenExpr{X: v.Cond}}
+						v.Body, v.Else = eb, v.Body
+						changed = true
+					case *ast.BlockStmt:
+						if *mode != "vardecl" {
+							return true
+						}
+						for i, st := range v.List {
+							as, ok := st.(*ast.AssignStmt)
+							if !ok || as.Tok != token.DEFINE || len(as.Lhs) != 1 || len(as.Rhs) != 1 {
+								continue
+							}
+							id, ok := as.Lhs[0].(*ast.Ident)
+							if !ok || id.Name == "_" {
+								continue
+							}
+							// x := e  =>  var x = e   (same type: the type of e)
+							if tv, ok := p.TypesInfo.Types[as.Rhs[0]]; !ok || tv.Type == nil {
+								continue
+							} else if b, isB := tv.Type.(*types.Basic); isB && b.Info()&types.IsUntyped != 0 {
+								continue
+							}
+							v.List[i] = &ast.DeclStmt{Decl: &ast.GenDecl{TokPos: as.Pos(), Tok: token.VAR, Specs: []ast.Spec{&ast.ValueSpec{Names: []*ast.Ident{id}, Values: as.Rhs}}}}
+							changed = true
+						}
+					}
+					return true
+				})
+				if changed {
+					var buf bytes.Buffer
+					if err := format.Node(&buf, p.Fset, f); err != nil {
+						fmt.Fprintln(os.Stderr, path, err)
+						os.Exit(2)
+					}
+					os.WriteFile(path, buf.Bytes(), 0644)
+					n++
+				}
+				continue
 			case "shift":
 				src, _ := os.ReadFile(path)
 				os.WriteFile(path, append([]byte("// (mechanical test rewrite: line shift)\n//\n//\n"), src...), 0644)
